@@ -351,6 +351,15 @@ where
                         node.append_child(n.as_node())?;
                     }
                     value => {
+                        // the parser accepts a reference to any code point; create_text_node
+                        // panics on one that is not an XML character.
+                        let is_char = |c: char| {
+                            matches!(c, '\t' | '\n' | '\r' | '\u{20}'..='\u{D7FF}' | '\u{E000}'..='\u{FFFD}' | '\u{10000}'..='\u{10FFFF}')
+                        };
+                        if !value.chars().all(is_char) {
+                            return Err(format!("`{}` does not refer to an XML character.", name).into());
+                        }
+
                         let n = document.create_text_node(value);
                         node.append_child(n.as_node())?;
                     }
